@@ -407,9 +407,19 @@ def application_table(w):
     rows = []
     for kind, fixed, rest in (("fixed2", ["a", "b"], None), ("rest", ["a"], "r"), ("thunk", [], None), ("fixed2+procedure-definition", ["a", "b"], None),
                               ("fixed1", ["a"], None), ("fixed3", ["a", "b", "c"], None), ("rest-only", [], "r"), ("fixed2-rest", ["a", "b"], "r"),
-                              ("fixed4", ["a", "b", "c", "e"], None)):
-        for k in (range(0, 4) if kind in ("fixed2", "rest", "thunk") else (2,) if "+" in kind else range(0, 6)):
+                              ("fixed4", ["a", "b", "c", "e"], None),
+                              # the captured environment is a frame that binds nothing (yet) below one that does — the body of a `begin` /
+                              # `let ()` / clause, or a body whose internal definitions are still being evaluated — and one that binds
+                              # something: the new frame hangs on the captured frame itself, whatever that frame holds at the moment
+                              ("thunk@empty-child", [], None), ("fixed1@empty-child", ["a"], None), ("fixed1@binding-child", ["a"], None)):
+        for k in (range(0, 4) if kind in ("fixed2", "rest", "thunk") else (2,) if "+" in kind else (len(fixed),) if "@" in kind else range(0, 6)):
             cenv = Frame(None, "closure-env")
+            if "@" in kind:
+                outer = Frame(None, "outer-env")
+                outer.defs.d["outer-name"] = ("outer-name", Tok("value-of", "outer-value"))
+                cenv = Frame(outer, "closure-env")
+                if kind.endswith("binding-child"):
+                    cenv.defs.d["inner-name"] = ("inner-name", Tok("value-of", "inner-value"))
             caller = Frame(None, "caller-env")
             d_marker, b1, b2 = w.sym("D"), w.sym("B1"), w.sym("B2")
             defs_ = [("d", d_marker)]
@@ -753,6 +763,30 @@ def trampoline_table(w):
     except (absint.Stuck, absint.Loop) as e:
         evs = [(x[1]) for x in r.events if x[0] == "eval"]
         rows.append(("whole-tail-call", {"stuck": str(e), "evals_so_far": evs}))
+    # the same with the operator a LAMBDA EXPRESSION written at the call (what `let`, `begin`, the clause bodies of `cond` / `case`
+    # and the temporaries of `or` expand to), nothing stubbed but the leaves: body = ((lambda (P) C1) ARGX) in tail position.  The
+    # lambda is evaluated in the frame of the first application, so its body runs in a NEW child of that frame — with a parameter
+    # the frame does not bind yet (v) and with one it binds already (a)
+    for pname in ("v", "a"):
+        cenv1, caller = Frame(None, "closure-env-1"), Frame(None, "caller-env")
+        sp2 = w.scheme_procedure(w.formals([pname]), [], [w.sym("C1")])
+        sp1 = w.scheme_procedure(w.formals(["a"]), [], [w.call(w.lam(sp2), [w.sym("ARGX")])])
+        p1 = w.user(sp1, cenv1)
+        argx = Tok("value-of", "ARGX")
+        r = Run(w, answers={"ARGX": ok(argx)}, follow=[w.asp.name, w.epc.name])
+        row = "lambda-expression-in-tail-position/parameter-%s" % pname
+        try:
+            res = r.run(w.ap, [p1, [Tok("arg", "V1")], caller])
+            frames = [e for e in r.events if e[0] == "new_child"]
+            defs = [e for e in r.events if e[0] == "define"]
+            rows.append((row, {
+                "result": res, "n_frames": len(frames), "second_parent_is_first_frame": len(frames) == 2 and frames[1][2] is frames[0][1],
+                "define_frames": [next((i for i, f in enumerate(frames) if f[1] is e[1]), None) for e in defs],
+                "body_frame": [next((i for i, f in enumerate(frames) if f[1] is e[2]), None) for e in r.events if e[0] in ("tail", "eval") and e[1] == "C1"],
+                "argx_frame": [next((i for i, f in enumerate(frames) if f[1] is e[2]), None) for e in r.events if e[0] == "eval" and e[1] == "ARGX"],
+                "recursive_applies": len([e for e in r.events if e[0] == "apply"])}))
+        except (absint.Stuck, absint.Loop) as e:
+            rows.append((row, {"stuck": str(e)}))
     # a SELF tail call (the loop of the property): same code, same captured environment; whether or not anything else still
     # refers to the frame of the finished turn, the next turn is an ordinary application with a frame of its own
     for count in (1, 2):
@@ -1592,6 +1626,18 @@ def rule_trampoline(ctx, rule, aspects):
                  "a tail call to a closure made in the finished turn's frame (a `let` in tail position) binds its parameter in frame(s) %s with "
                  "%d frame(s) created; expected a new child of that frame for the second turn — binding in the frame itself changes what "
                  "closures made there earlier see" % (d["define_frames"], d["n_frames"]))])
+            continue
+        if second.startswith("lambda-expression-in-tail-position"):
+            if not (set(aspects) & {"rebind", "frame"}):
+                continue
+            v.row(key, d, [
+                (d["n_frames"] == 2 and d["second_parent_is_first_frame"] and d["define_frames"] == [0, 1] and d["body_frame"] == [1]
+                 and d["argx_frame"] == [0],
+                 "((lambda (%s) C1) ARGX) in tail position of a procedure with the parameter a: %d frame(s) created, parameters bound in "
+                 "frame(s) %s, ARGX evaluated in frame %s, C1 in frame %s; expected the operand evaluated in the procedure's frame and the "
+                 "lambda's parameter bound, and its body run, in a new child of that frame — binding in the frame itself changes what "
+                 "closures made there earlier see (let / let* / the temporaries of or / cond / case in tail position)" % (
+                     second.rsplit("-", 1)[1], d["n_frames"], d["define_frames"], d["argx_frame"], d["body_frame"]))])
             continue
         if second.startswith("self-tail-call"):
             checks = [(d["recursive_applies"] == 0, "the trampoline calls apply_procedure recursively for a pending tail call")]
